@@ -149,6 +149,7 @@ let rec parse_node (toks : string list) : node * string list =
 (* ---- property evaluation on the implementation's own results (no model involved) ---- *)
 type rrec = { engine : string; status : string; steps : int; ms : imatch list }
 
+exception Ir_timeout
 let main_exec () =
   let budget = ref 100000 in
   (match Array.to_list Sys.argv with
@@ -163,6 +164,10 @@ let main_exec () =
   let ir0 : node option ref = ref None and ir1 : node option ref = ref None in
   let multiline = ref false and gnames : n list list ref = ref [] in
   let stage_checks = ref 0 in
+  let ir_evals = ref 0 and ir_inconclusive = ref 0 in
+  let ir_eval_limit = (try int_of_string (Sys.getenv "RV_IR_EVALS") with Not_found -> 4000) in
+  let ir_fuel = nat_of_int_big 400 in
+  Sys.set_signal Sys.sigalrm (Sys.Signal_handle (fun _ -> raise Ir_timeout));
   let utf16 = (try Sys.getenv "RV_UTF16" = "1" with Not_found -> false) in
   let group : rrec list ref = ref [] in
   let prev_opt : (string * int * string, rrec) Hashtbl.t = Hashtbl.create 64 in
@@ -324,6 +329,35 @@ let main_exec () =
         let impl_ms = parse_matches ms in
         let impl_steps = ios steps in
         group := { engine; status; steps = impl_steps; ms = impl_ms } :: !group;
+        (* IR semantics (IRSem.v) on the implementation's own IR, before and after optimisation:
+           the first match from this start must be the engine's first match *)
+        if engine = "bt8" && status = "ok" && !ir_evals < ir_eval_limit then begin
+          let ngroups = (match !hdr with Some (_, ng, _, _) -> ng | None -> 0) in
+          let uni = (match !hdr with Some (_, _, u, _) -> u | None -> false) in
+          List.iter (fun (tag, ir) ->
+            match ir with
+            | None -> ()
+            | Some n ->
+              incr ir_evals;
+              let r = (try
+                  ignore (Unix.alarm 2);
+                  let m = drv_ir_first false uni utf16 !hay ir_fuel n (nat_of_int ngroups) (nat_of_int !start) in
+                  ignore (Unix.alarm 0); m
+                with Ir_timeout -> (ignore (Unix.alarm 0); None)) in
+              (match r with
+               | None -> incr ir_inconclusive
+               | Some res ->
+                 let expect = (match impl_ms with [] -> None | m :: _ -> Some m) in
+                 let got = (match res with
+                   | None -> None
+                   | Some ((s, e), gs) -> Some (int_of_nat s, int_of_nat e,
+                       List.map (fun g -> match g.gd_start, g.gd_end with Some a, Some b -> Some (int_of_nat a, int_of_nat b) | _ -> None) gs)) in
+                 if got <> expect then begin
+                   incr mism;
+                   Printf.printf "MISMATCH stage=IRSem-%s case=%s pat=%s flags=%s hay=%s start=%d engine=%s impl=%s irsem=%s\n" tag !cur_id !cur_pat !cur_flags !hayhex !start engine
+                     (show_matches (match expect with None -> [] | Some m -> [m])) (show_matches (match got with None -> [] | Some m -> [m]))
+                 end)) [("ir0", !ir0); ("ir1", !ir1)]
+        end;
         let (mst, msteps, mms) = run_model engine p !hay !start !budget in
         total_steps := !total_steps + msteps;
         if impl_steps > List.length p.p_insns then incr nontrivial;
@@ -340,7 +374,7 @@ let main_exec () =
       | _ -> failwith ("bad line: " ^ line)
     done
   with End_of_file -> ());
-  Printf.printf "SUMMARY cases=%d runs=%d mismatches=%d nontrivial=%d model_steps=%d propviol=%d inconclusive=%d stage_checks=%d\n" !cases !runs !mism !nontrivial !total_steps !pviol !inconclusive !stage_checks
+  Printf.printf "SUMMARY cases=%d runs=%d mismatches=%d nontrivial=%d model_steps=%d propviol=%d inconclusive=%d stage_checks=%d ir_evals=%d ir_inconclusive=%d\n" !cases !runs !mism !nontrivial !total_steps !pviol !inconclusive !stage_checks !ir_evals !ir_inconclusive
 
 let () =
   match Array.to_list Sys.argv with
